@@ -5,20 +5,26 @@ creation order; addresses are the last octet of 10.0.0.x.
 ops:
   reset di to dinv my            drop_inactive, inactivity timeout (s), disconnect_invalid, own address   -> ok
   cfg di to dinv                 reload of the three settings                                            -> ok
-  mycert g iv                    local v1 certificate := generation g (0 = none), pki.initiatingVersion   -> ok
-  add a li ri kind exp g         established tunnel to address a, local/remote index, kind 1 = no peer certificate,
-                                 2 = peer certificate valid for exp more seconds; built with local cert generation g
-                                                                                                         -> new h;<dump>
-  in h | out h | counter h n | block h | sleep n                                                         -> ok
+  mycert g1 g2 iv                local v1 / v2 certificate := generation g1 / g2 (0 = none), pki.initiatingVersion -> ok
+  add a li ri kind exp g ver pv  established tunnel to address a, local/remote index; kind 0 = no ConnectionState,
+                                 2 = peer certificate (version pv) valid for exp more seconds; built with the local
+                                 certificate of version ver, generation g.  A tunnel without peer certificate is only
+                                 accepted alone on its address (refused otherwise: bad-op)                 -> new h;<dump>
+  in h | out h | counter h n | block h | sleep n     (in: refused for a tunnel without ConnectionState)    -> ok
+  relay h peer ty st v,v,…       AddRelay on tunnel h (crypto/rand = the stream)                          -> idx n|err:…;<dump>
+  used i                         connectionManager.RelayUsed(i); refused while another relay index of the same tunnel
+                                 is marked (keeps relay migration independent of Go's map iteration order)  -> ok
   decide li                      makeTrafficDecision(li, now)     -> d=<code> h=<id|nil> p=<id|nil> f=<in><out><pd>
-  tick li                        doTrafficCheck(li, now)          -> <dump>
-dump: H a:h,h… | I i:h… | V a… | F h:<in><out><pd>…   (per-address lists primary first, Indexes, pending handshakes,
-flags of every indexed tunnel)
+  tick li v,v,…|-                doTrafficCheck(li, now) (stream for a relay migration's AddRelay)         -> <dump>
+dump: H a:h,h… | I i:h… | V a… | F h:<in><out><pd>… | L i:h… | Q h:peer/type/state,… | U i…
+(per-address lists primary first, Indexes, pending handshakes, flags of every indexed tunnel, Relays, relayForByAddr of
+every indexed tunnel without the indexes, relayUsed)
 -/
 import Nebula.Driver.Common
 import Nebula.Model.HostMap
 import Nebula.Model.ConnMgr
 import Nebula.Spec.ConnMgr
+import Nebula.Driver.Hostmap
 
 namespace Nebula.Driver.Connmgr
 open Nebula.Driver Nebula.ConnMgr
@@ -27,7 +33,10 @@ open Nebula.HostMap (FMap)
 structure Tun where
   addr : Nat
   lidx : Nat
+  hasCS : Bool := true
   hasCert : Bool
+  ver : Nat := 1            -- version of the local certificate the tunnel was built with
+  pver : Nat := 1           -- version of the peer certificate
   expiry : Nat := 0
   blocked : Bool := false
   counter : Nat := 0
@@ -45,12 +54,17 @@ structure St where
   disconnectInvalid : Bool := false
   myAddr : Nat := 0
   v1gen : Nat := 0
+  v2gen : Nat := 0
   initVer : Nat := 1
+  used : List Nat := []     -- connectionManager.relayUsed
   tuns : FMap Tun := []
   hm : Nebula.HostMap.State := {}
   deriving Inhabited
 
 def St.tun (s : St) (h : Nat) : Tun := (s.tuns.get h).getD default
+
+/-- generation of the local certificate of version `v` (0 = none) -/
+def St.certGen (s : St) (v : Nat) : Nat := if v == 1 then s.v1gen else if v == 2 then s.v2gen else 0
 
 def never : Nat := 10 ^ 12     -- `now.Sub(time.Time{})` saturates far above any timeout
 
@@ -64,8 +78,8 @@ def inputs (s : St) (li : Nat) : In × Option Nat × Option Nat :=
     let primary := s.hm.hosts.get t.addr
     let isMain := match primary with | none => true | some p => p == h
     let idle := match t.lastUsed with | none => never | some u => s.clock - u
-    let swap := shouldSwapPrimary (decide (t.addr < s.myAddr)) t.counter (s.v1gen != 0) (t.gen == s.v1gen)
-    (⟨true, cert, s.disconnectInvalid, true, t.counter, isMain, t.inF, t.outF, t.pd, s.dropInactive, idle, s.timeout, swap⟩,
+    let swap := shouldSwapPrimary (decide (t.addr < s.myAddr)) t.counter (s.certGen t.ver != 0) (t.gen == s.certGen t.ver)
+    (⟨true, cert, s.disconnectInvalid, t.hasCS, t.counter, isMain, t.inF, t.outF, t.pd, s.dropInactive, idle, s.timeout, swap⟩,
       some h, primary)
 
 /-- flag effects of `makeTrafficDecision` on the tunnel -/
@@ -86,8 +100,16 @@ def dump (s : St) : String :=
   let hs := (sortKeys s.hm.hosts).map fun (a, _) => s!" {a}:{natList (Nebula.HostMap.hostList s.hm a)}"
   let is := (sortKeys s.hm.indexes).map fun (i, h) => s!" {i}:{h}"
   let vs := (sortKeys s.hm.vpnIps).map fun (a, _) => s!" {a}"
-  let fs := ((s.hm.indexes.map (·.2)).mergeSort (· ≤ ·)).map fun h => s!" {h}:{flagStr (s.tun h)}"
-  "H" ++ String.join hs ++ "|I" ++ String.join is ++ "|V" ++ String.join vs ++ "|F" ++ String.join fs
+  let live := (s.hm.indexes.map (·.2)).mergeSort (· ≤ ·)
+  let fs := live.map fun h => s!" {h}:{flagStr (s.tun h)}"
+  let ls := (sortKeys s.hm.relays).map fun (i, h) => s!" {i}:{h}"
+  let qs := live.filterMap fun h =>
+    let m := (s.hm.rstate h).byAddr
+    if m.isEmpty then none else
+    some (s!" {h}:" ++ ",".intercalate ((sortKeys m).map fun (a, r) => s!"{a}/{r.type}/{r.state}"))
+  let us := (s.used.mergeSort (· ≤ ·)).map fun i => s!" {i}"
+  "H" ++ String.join hs ++ "|I" ++ String.join is ++ "|V" ++ String.join vs ++ "|F" ++ String.join fs ++
+    "|L" ++ String.join ls ++ "|Q" ++ String.join qs ++ "|U" ++ String.join us
 
 def optStr : Option Nat → String
   | some h => toString h
@@ -104,24 +126,51 @@ def decisionTag (i : In) (o : ConnMgr.Out) : String :=
       else if i.inT then ":alive"
       else if i.pd then ":probe-unanswered"
       else if Spec.ConnMgr.inactive i then ":inactive"
+      else if !i.hasCS then ":no-connection-state"
       else if !i.isMain then ":non-primary-silent"
       else if i.cert == .invalid then ":silent-invalid-kept" else ":silent"
     d ++ why
 
+/-- `migrateRelayUsed(old, new)`: relays of `old` that were used and that `new` does not know are re-created on `new`
+(`AddRelay` … `Requested`); at most one of them can be marked used (see `used`), so the result does not depend on the
+map iteration order -/
+def migrate (s : St) (old new : Nat) (st : List Nat) : St × Bool :=
+  ((s.hm.rstate old).byIdx.map (·.2)).foldl (fun (acc : St × Bool) r =>
+    let (s, any) := acc
+    if ((s.hm.rstate new).byAddr.get r.peer).isSome then (s, any)
+    else if !s.used.contains r.lidx then (s, any)
+    else
+      let (hm', _) := Nebula.HostMap.addRelay s.hm new { type := r.type, state := Nebula.Gen.hostmap_Requested, peer := r.peer } st
+      ({ s with hm := hm' }, true)) (s, false)
+
+/-- `resetRelayTrafficCheck(hostinfo)` -/
+def resetUsed (s : St) (h : Nat) : St :=
+  { s with used := s.used.filter fun i => !((s.hm.rstate h).byIdx.get i).isSome }
+
 /-- the hostmap / handshake effects of `doTrafficCheck` for a decision on tunnel `h` -/
-def effects (s : St) (h : Nat) (o : ConnMgr.Out) (primary : Option Nat) : St × String :=
+def effects (s : St) (h : Nat) (o : ConnMgr.Out) (primary : Option Nat) (st : List Nat) : St × String :=
   let t := s.tun h
-  match o.decision with
-  | .deleteTunnel | .closeTunnel => ({ s with hm := (Nebula.HostMap.deleteHost s.hm h).1 }, "")
-  | .swapPrimary =>
-    if s.hm.hosts.get t.addr == primary then ({ s with hm := (Nebula.HostMap.makePrimary s.hm h).1 }, "") else (s, "")
-  | .tryRehandshake =>
-    let r := rehandshakes (s.v1gen != 0) false false (t.gen == s.v1gen) (decide (1 < s.initVer)) t.counter
-    if r then ({ s with hm := (Nebula.HostMap.startHandshake s.hm t.addr).1 },
-      if s.v1gen == 0 then ":cert-removed" else if t.gen != s.v1gen then ":cert-changed"
-      else if 1 < s.initVer then ":version" else ":counter")
-    else (s, ":no-cause")
-  | _ => (s, "")
+  let (s', why) : St × String := match o.decision with
+    | .deleteTunnel | .closeTunnel => ({ s with hm := (Nebula.HostMap.deleteHost s.hm h).1 }, "")
+    | .swapPrimary =>
+      if s.hm.hosts.get t.addr == primary then ({ s with hm := (Nebula.HostMap.makePrimary s.hm h).1 }, "") else (s, "")
+    | .migrateRelays =>
+      match primary with
+      | some p => let (s', any) := migrate s h p st; (s', if any then ":relay-migrated" else "")
+      | none => (s, "")
+    | .tryRehandshake =>
+      let present := s.certGen t.ver != 0
+      let peerHigher := t.hasCert && decide (t.ver < t.pver)
+      let haveHigher := s.certGen t.pver != 0
+      let r := rehandshakes present peerHigher haveHigher (t.gen == s.certGen t.ver) (decide (t.ver < s.initVer)) t.counter
+      if r then ({ s with hm := (Nebula.HostMap.startHandshake s.hm t.addr).1 },
+        if !present then ":cert-removed" else if peerHigher && haveHigher then ":peer-version-higher"
+        else if t.gen != s.certGen t.ver then (if peerHigher then ":cert-changed-mixed-versions" else ":cert-changed")
+        else if t.ver < s.initVer then ":version" else (if peerHigher then ":counter-mixed-versions" else ":counter"))
+      else (s, if peerHigher then ":no-cause-mixed-versions" else ":no-cause")
+    | _ => (s, "")
+  -- `resetRelayTrafficCheck` runs whenever makeTrafficDecision returned the hostinfo
+  (if o.retHost then resetUsed s' h else s', why)
 
 def ok (s : St) (impl : String) (tag : String) : St × Out :=
   (s, { model := "ok", verdict := expect "setup-op" impl "ok", tag := tag })
@@ -138,41 +187,73 @@ def step (s : St) (args : List String) (impl : String) : St × Out :=
     | some di, some to, some dinv =>
       ok { s with dropInactive := di != 0, timeout := to, disconnectInvalid := dinv != 0 } impl "triv:cfg"
     | _, _, _ => (s, badOp)
-  | ["mycert", g, iv] =>
-    match natArg g, natArg iv with
-    | some g, some iv => ok { s with v1gen := g, initVer := iv } impl "triv:mycert"
-    | _, _ => (s, badOp)
-  | ["add", a, li, ri, kind, exp, g] =>
-    match natArg a, natArg li, natArg ri, natArg kind, natArg exp, natArg g with
-    | some a, some li, some ri, some kind, some exp, some g =>
+  | ["mycert", g, g2, iv] =>
+    match natArg g, natArg g2, natArg iv with
+    | some g, some g2, some iv => ok { s with v1gen := g, v2gen := g2, initVer := iv } impl "triv:mycert"
+    | _, _, _ => (s, badOp)
+  | ["add", a, li, ri, kind, exp, g, ver, pv] =>
+    match natArg a, natArg li, natArg ri, natArg kind, natArg exp, natArg g, natArg ver, natArg pv with
+    | some a, some li, some ri, some kind, some exp, some g, some ver, some pv =>
       if (s.hm.indexes.get li).isSome || li == 0 then (s, badOp) else
+      -- tunnels without a peer certificate live alone on their address
+      let lonely : Bool := (Nebula.HostMap.hostList s.hm a).all fun x => (s.tun x).hasCert
+      if !(kind == 0 || kind == 2) || !(ver == 1 || ver == 2) || !(pv == 1 || pv == 2) then (s, badOp) else
+      if !lonely || (kind != 2 && !(Nebula.HostMap.hostList s.hm a).isEmpty) then (s, badOp) else
       let h := s.hm.next
       let hm1 := { s.hm with objs := s.hm.objs.set h { addrs := [a], lidx := li, ridx := ri }, next := h + 1 }
       let hm2 := Nebula.HostMap.addHost hm1 h
-      let t : Tun := { addr := a, lidx := li, hasCert := kind == 2, expiry := s.clock + exp, gen := g }
+      let t : Tun := { addr := a, lidx := li, hasCS := kind != 0, hasCert := kind == 2, ver := ver, pver := pv,
+                       expiry := s.clock + exp, gen := g }
       let s' := { s with hm := hm2, tuns := s.tuns.set h t }
       let m := s!"new {h};" ++ dump s'
       (s', { model := m, verdict := expect "add-effect" impl m, tag := "triv:add" })
-    | _, _, _, _, _, _ => (s, badOp)
+    | _, _, _, _, _, _, _, _ => (s, badOp)
   | ["in", h] =>
     match natArg h with
-    | some h => ok { s with tuns := s.tuns.set h { s.tun h with inF := true } } impl "triv:in"
+    | some h =>
+      if (s.tuns.get h).isSome && !(s.tun h).hasCS then (s, badOp) else
+      if (s.tuns.get h).isNone then ok s impl "triv:in" else
+      ok { s with tuns := s.tuns.set h { s.tun h with inF := true } } impl "triv:in"
     | none => (s, badOp)
   | ["out", h] =>
     match natArg h with
-    | some h => ok { s with tuns := s.tuns.set h { s.tun h with outF := true } } impl "triv:out"
+    | some h =>
+      if (s.tuns.get h).isNone then ok s impl "triv:out" else
+      ok { s with tuns := s.tuns.set h { s.tun h with outF := true } } impl "triv:out"
     | none => (s, badOp)
   | ["counter", h, n] =>
     match natArg h, natArg n with
-    | some h, some n => ok { s with tuns := s.tuns.set h { s.tun h with counter := n } } impl "triv:counter"
+    | some h, some n =>
+      if (s.tuns.get h).isNone then ok s impl "triv:counter" else
+      ok { s with tuns := s.tuns.set h { s.tun h with counter := n } } impl "triv:counter"
     | _, _ => (s, badOp)
   | ["block", h] =>
     match natArg h with
-    | some h => ok { s with tuns := s.tuns.set h { s.tun h with blocked := true } } impl "triv:block"
+    | some h =>
+      if (s.tuns.get h).isNone then ok s impl "triv:block" else
+      ok { s with tuns := s.tuns.set h { s.tun h with blocked := true } } impl "triv:block"
     | none => (s, badOp)
   | ["sleep", n] =>
     match natArg n with
     | some n => ok { s with clock := s.clock + n } impl "triv:sleep"
+    | none => (s, badOp)
+  | ["relay", h, peer, ty, rst, vs] =>
+    match natArg h, natArg peer, natArg ty, natArg rst, Hostmap.streamArg vs with
+    | some h, some peer, some ty, some rst, some st =>
+      if !(s.tuns.get h).isSome || !(ty == 1 || ty == 2) then (s, badOp) else
+      let (hm', r) := Nebula.HostMap.addRelay s.hm h { type := ty, state := rst, peer := peer } st
+      let s' := { s with hm := hm' }
+      let m := Hostmap.allocStr r ++ ";" ++ dump s'
+      (s', { model := m, verdict := expect "relay-effect" impl m, tag := "triv:relay" })
+    | _, _, _, _, _ => (s, badOp)
+  | ["used", i] =>
+    match natArg i with
+    | some i =>
+      let clash : Bool := match s.hm.relays.get i with
+        | some h => s.used.any fun j => j != i && ((s.hm.rstate h).byIdx.get j).isSome
+        | none => false
+      if clash then (s, badOp) else
+      ok { s with used := if s.used.contains i then s.used else s.used ++ [i] } impl "triv:used"
     | none => (s, badOp)
   | ["decide", li] =>
     match natArg li with
@@ -189,22 +270,22 @@ def step (s : St) (args : List String) (impl : String) : St × Out :=
         else s!"bad decision-differs-from-policy want={(Spec.ConnMgr.policy i).code}"
       (s', { model := line o.decision, verdict := verdict, tag := if i.found then "decide:" ++ decisionTag i o else "triv:decide-not-found" })
     | none => (s, badOp)
-  | ["tick", li] =>
-    match natArg li with
-    | some li =>
+  | ["tick", li, vs] =>
+    match natArg li, (if vs == "-" then some [] else Hostmap.streamArg vs) with
+    | some li, some st =>
       let (i, hh, primary) := inputs s li
       let o := trafficDecision i
       match hh with
       | none => let m := dump s; (s, { model := m, verdict := expect "tick-effect" impl m, tag := "triv:tick-not-found" })
       | some h =>
         let s1 := applyFlags s h o
-        let (s2, why) := effects s1 h o primary
+        let (s2, why) := effects s1 h o primary st
         let m := dump s2
         -- the oracle: the hostmap after the check is what the policy's action yields
         let op := { o with decision := Spec.ConnMgr.policy i }
-        let want := dump (effects (applyFlags s h op) h op primary).1
+        let want := dump (effects (applyFlags s h op) h op primary st).1
         (s2, { model := m, verdict := expect "tick-effect" impl want, tag := "tick:" ++ decisionTag i o ++ why })
-    | none => (s, badOp)
+    | _, _ => (s, badOp)
   | _ => (s, badOp)
 
 def main : IO Unit := runEngine ({} : St) step
